@@ -154,7 +154,7 @@ KIND_W = [("struct", 50), ("union", 10), ("enum", 15), ("typedef", 20), ("opaque
 
 @st.composite
 def library(draw, lang="c", min_types=1, max_types=8, min_funcs=1, max_funcs=6, max_vars=3, max_tus=3,
-            symfeatures=False, statics=True, kind_w=None, tu_private=0):
+            symfeatures=False, statics=True, kind_w=None, tu_private=0, versions="maybe"):
     if lang == "any":
         lang = _pick(draw, ["c", "c", "cxx"])
     cxx = lang == "cxx"
@@ -211,7 +211,7 @@ def library(draw, lang="c", min_types=1, max_types=8, min_funcs=1, max_funcs=6, 
     if tu_private and lang == "c" and ntu >= 2 and draw(st.integers(0, 99)) < tu_private:
         add_tu_private_types(draw, m, ntu, cx)
     if symfeatures:
-        add_symbol_features(draw, m)
+        add_symbol_features(draw, m, versions)
     return m
 
 
@@ -246,10 +246,10 @@ def add_tu_private_types(draw, m, ntu, cx):
             m["funcs"].append(f)
 
 
-def add_symbol_features(draw, m):
+def add_symbol_features(draw, m, versions="maybe"):
     """visibility, weak binding, aliases, symbol versions (C only: names are unmangled)."""
     versions = ["VERS_1", "VERS_2"]
-    use_versions = draw(st.integers(0, 2)) == 0
+    use_versions = versions == "yes" or (versions == "maybe" and draw(st.integers(0, 2)) == 0)
     for n_, (k, i) in enumerate(M.interfaces(m)):
         if n_ == 0:
             continue  # keep one plain exported function: a binary without any public symbol is rejected by the tools
@@ -264,7 +264,7 @@ def add_symbol_features(draw, m):
             n = draw(st.integers(1, 2))
             i["aliases"] = [{"name": "%s_al%d" % (i["name"], j), "weak": k == "fn" and draw(st.booleans())}
                             for j in range(n)]
-        if use_versions and i.get("vis", "default") == "default" and draw(st.integers(0, 2)) == 0:
+        if use_versions and i.get("vis", "default") == "default" and draw(st.integers(0, 2 if versions == "maybe" else 1)) == 0:
             i["version"] = _pick(draw, versions)
         if m["lang"] == "cxx" and k == "fn" and (i.get("aliases") or i.get("version")):
             i["extern_c"] = True
